@@ -249,7 +249,11 @@ class G:
             self.ntok += 1
             return
         if x < 0.45:
-            self.steps.append({"op": "dispatch"})
+            if self.cls in ("life", "faults") and r.random() < 0.3:
+                # a dispatch that may block: a synthetic event announced by any lifecycle source forces a zero timeout
+                self.steps.append({"op": "dispatch", "timeout": 3 * 2000})
+            else:
+                self.steps.append({"op": "dispatch"})
             return
         if x < 0.60:
             c = self.cause_op()
@@ -271,6 +275,13 @@ class G:
             cand = [s for s in en if self.decl(s)["kind"] != "timer"]
             if cand:
                 self.steps.append({"op": "enable", "ts": r.choice(cand)})
+                return
+        if 0.70 <= x < 0.72 and dis and self.cls not in ("timers", "idle"):
+            # update() of a disabled fd-backed source: fails (nothing is registered) and changes nothing
+            cand = [s for s in dis if self.decl(s)["kind"] != "timer"
+                    and not any(c.get("transient") for c in self.decl(s).get("children", []))]
+            if cand:
+                self.steps.append({"op": "update", "ts": r.choice(cand)})
                 return
         if x < 0.72 and dis:
             s = r.choice(dis)
@@ -619,6 +630,17 @@ def pat_timers(rnd, sid):
     """Timer armings: unrepresentable / past / equal deadlines, set_deadline + update, disable / enable,
     reschedules from the callback; another source fails or interferes in the same dispatch."""
     r = rnd
+    if r.random() < 0.2:
+        # several timers with shuffled deadlines, all due in ONE dispatch (the loop was busy elsewhere): they fire in
+        # deadline order whatever the order in which they were armed
+        n = r.choice([3, 4, 5, 6])
+        dls = [r.choice([0, 1, 2, 3, 4, 5, 6]) for _ in range(n)]
+        srcs = [{"s": i + 1, "kind": "timer", "held": 1, "dl": dls[i]} for i in range(n)]
+        steps = [{"op": "insert", "s": i + 1} for i in range(n)]
+        steps += [{"op": "advance", "k": max(dls) + 1}, {"op": "dispatch"}, {"op": "dispatch"}]
+        progs = {"s%d" % (i + 1): [{"ops": [], "ret": r.choice(["drop", "drop", {"to": max(dls) + 3}])} for _ in range(3)] for i in range(n)}
+        steps += [{"op": "advance", "k": max(dls) + 4}, {"op": "dispatch"}]
+        return {"id": sid, "tick_us": 2000, "sources": srcs, "progs": progs, "steps": steps}
     n = r.choice([2, 3, 3])
     srcs = []
     for i in range(n):
